@@ -153,6 +153,32 @@ EXPLANATION += ("  (4) SizeScorer.score is re-translated as a whole method (conf
                 "Scores.size_scorer; trusted: the translator (extended by dict comprehensions over d.items()) and the one primitive p.size = the number of rows of the "
                 "plate (a Plate where a ScreenSubset is expected is its rows in this vocabulary). ")
 
+THEOREMS.update({
+    "C06_select_sound_any_scorer": "gap review G6.1: for a scorer that is NOT a function of the plate (the call at position pos of the combine order is made by scorer pos - RandomScorer, sub-sampling DBAL) and any order containing every chunk index (repeats allowed: one plate then carries several scores): the pipeline does not raise; the returned plate is a candidate, allowed, and the score SOME call stored for it is <= the score ANY call stored for ANY allowed plate; None only if nothing is allowed",
+    "C06_any_scorer_allowed_is_scored": "every allowed plate is handed to the scorer by at least one call of the combine order (the comparison of C06_select_sound_any_scorer is never vacuous)",
+    "C06_pipeline_pos_constant": "for a scorer that is a function of the plate the positional pipeline IS the pipeline of C06_select_sound",
+})
+THEOREMS.update({
+    "C06_model_is_source_conditioning_helpers": "gap review G6.3: primitives `a.combine(b)` -> subset_union, `ScreenSubset.concat(l)` -> subset_concat, `filter_dataset_to_unique_treatments(x)` -> uniq_first []: the translated ScreenSubset.combine / ScreenSubset.concat / filter_dataset_to_unique_treatments (Generated/SrcViews.v, SrcPlates.v), read through the representation sc_rows / sc_subset, give exactly the Scores subsets the configuration C06_SCORE_CHUNK says",
+    "C06_model_is_source_conditioning": "composed as score_chunk composes them: the translated filter_dataset_to_unique_treatments(plate.combine(ScreenSubset.concat(batch plates))) selects uniq_first [] (subset_union plate (subset_concat batch plates)) - the rows the model's rows_for hands to the scorer",
+})
+EXPLANATION += ("  BRIDGE (gap review G6.3, replaces the sentence above saying it is not stated): Proofs/C06SourceBridge.v proves that the translated ScreenSubset.concat / combine / "
+                "filter_dataset_to_unique_treatments, read through sc_rows / sc_subset, are Scores.subset_concat / subset_union / uniq_first [] (C06_model_is_source_conditioning_helpers, _conditioning); "
+                "side conditions screen_wf / view_ok / same parent hold of every constructed screen and of the plates of one screen.  ")
+# ---- gap review G6.1 / G6.2 / G5.5 / G6.4 + seeded C06-m10: what the generators explore in addition ----
+RULE += ("  selcli: select_next_plate.main() on hand-written chunk files holding -inf / +inf / +-1.797e308 / +-5e-324 / scores one ulp apart / ties "
+         "(and, in a smaller stream, NaN), with and without KPerSamplePlatePolicy, files shuffled, some empty, one possibly given twice: the plate written is unobserved, not in the batch, "
+         "allowed by the policy (its recorded answer) and no allowed plate has a strictly lower score under Python's float ordering (-inf lowest), -1 only when nothing is allowed; "
+         "without NaN the written id is also compared exactly with the model (first minimal allowed slot of the concatenation in command-line order).  "
+         "pipeline, additional streams: scorer dbal = the real GaussianDBALScorer on real SparseDrugComboMCMCSample posterior samples and a complete distance matrix (3-5 samples, every triple enumerated), "
+         "mostly WITH a batch so that the subsets handed over overlap (max_chunk 1 / 2 / 50), predicate: each candidate's score equals the scorer's score of exactly the rows handed for it, alone; "
+         "scorer noisy / random with a REPEATED chunk (a plate carries two different scores in the combined holder): the selected plate's lowest stored score is <= every stored score of every allowed plate, "
+         "the combination and argmin compared exactly with the model as a holder script; stub scores from the extreme table, sometimes NaN; screens of 12-40 plates of ONE common size "
+         "(names P000.., two-digit ids), up to 45 chunks, batches of two-digit ids.  'Condition' in the batch-conditioning clause means the pair (sample id, treatment ids in column order): "
+         "rows (A, B) and (B, A) are different conditions for the code, the model and the predicate alike.")
+ASSUMPTIONS.append("NaN scores are outside the property's quantifier; what the unchanged tree does is documented, not judged: numpy argmin over the allowed slots returns the first NaN slot, "
+                   "so an allowed plate with a NaN score is selected before every number (feature nan-wins); the predicate uses Python float comparisons, none of which is true of NaN")
+
 logging.getLogger("batchie").setLevel(logging.ERROR)  # "No eligible plates remaining" warnings are not part of the check
 
 TNAMES = ["", "a", "b", "c"]
@@ -180,7 +206,7 @@ def build_screen(sd):
     screen = Screen(
         treatment_names=tn, treatment_doses=td,
         sample_names=np.array(["s%d" % r[1] for r in rows], dtype=str),
-        plate_names=np.array(["P%d" % r[0] for r in rows], dtype=str),
+        plate_names=np.array([("P%%0%dd" % sd.get("pad", 1)) % r[0] for r in rows], dtype=str),
         observations=np.zeros(n, dtype=float), observation_mask=mask)
     part = sd.get("partial") or []
     if part:
@@ -197,7 +223,12 @@ def screen_wire(screen):
 
 def holder_contents(h):
     assert len(h.scores) == len(h.plate_ids)
-    return [int(h.size), [[int(i), float_key(s)] for i, s in zip(h.plate_ids, h.scores)], int(h.current_index)]
+    return [int(h.size), [[int(i), _fk(s)] for i, s in zip(h.plate_ids, h.scores)], int(h.current_index)]
+
+
+def _fk(x):
+    """order key of a score; NaN has none (such cases never reach the model)"""
+    return "nan" if x != x else float_key(x)
 
 
 def subset_rows(p):
@@ -229,11 +260,62 @@ def _scorer_classes():
 
         def score(self, plates, distance_matrix, samples, rng, progress_bar):
             self.calls.append([[int(k), subset_rows(p)] for k, p in plates.items()])
+            self.objects = dict(plates)
             r = self.inner.score(plates=plates, distance_matrix=distance_matrix, samples=samples, rng=rng, progress_bar=progress_bar)
             self.returned.append([[int(k), float(v)] for k, v in r.items()])
             return r
 
     return Stub, Wrap
+
+
+def _noisy_scorer_class():
+    from batchie.core import Scorer
+
+    class Noisy(Scorer):
+        """a scorer that is NOT a function of the plate: the score of a plate depends on which call (position in the combine
+        order) scored it - as RandomScorer or a sub-sampling DBAL scorer do.  Reproducible: value = table[(plate + 3 * position)]"""
+
+        def __init__(self, table, pos):
+            self.table, self.pos = table, pos
+            self.calls, self.returned = [], []
+
+        def score(self, plates, distance_matrix, samples, rng, progress_bar):
+            self.calls.append([[int(k), subset_rows(p)] for k, p in plates.items()])
+            r = {k: self.table[(int(k) + 3 * self.pos) % len(self.table)] for k in plates.keys()}
+            self.returned.append([[int(k), float(v)] for k, v in r.items()])
+            return r
+
+    return Noisy
+
+
+def _dbal_inputs(desc, screen):
+    """posterior samples of the real SparseDrugCombo sample class (sized generously for the screen's ids) and a complete
+    distance matrix over them; few samples, so that every triple is enumerated (the scorer draws a permutation, nothing else)"""
+    import random as _random
+
+    from batchie.core import ThetaHolder
+    from batchie.distance_calculation import ChunkedDistanceMatrix
+    from batchie.models.sparse_combo import SparseDrugComboMCMCSample
+
+    r = _random.Random(desc["seed"])
+    T = desc.get("T", 4)
+    ns, nt, D = 8, 16, 2
+    g = lambda *shape: np.array([r.randint(-16, 16) / 8.0 for _ in range(int(np.prod(shape)))]).reshape(shape)
+    th = ThetaHolder(n_thetas=T)
+    for _ in range(T):
+        th.add_theta(SparseDrugComboMCMCSample(W=g(ns, D), W0=g(ns), V2=g(nt, D), V1=g(nt, D), V0=g(nt), alpha=r.randint(-8, 8) / 8.0,
+                                               precision=2.0 ** r.randint(-2, 4)))
+    dm = ChunkedDistanceMatrix(size=T)
+    zero = desc.get("dist") == "zero"
+    for i in range(T):
+        for j in range(i):
+            dm.add_value(i, j, 0.0 if zero else (r.choice([0.0, r.randint(1, 40) / 8.0, r.randint(1, 40) / 8.0])))
+    return th, dm
+
+
+def _same_score(a, b):
+    a, b = float(a), float(b)
+    return a == b or (a != a and b != b) or abs(a - b) <= 1e-9 * max(1.0, abs(a), abs(b))
 
 
 class _RecPolicy:
@@ -471,9 +553,57 @@ def gen(rng, tier):
         used = [i for _, a in hs for i, _ in a]
         pid = rng.choice(used + used + [0, rng.randint(0, 9)]) if used else rng.randint(0, 3)
         yield dict(kind="holder", holders=hs, post=[], eligible=[pid], what=2)
+    yield from gen_selcli(rng, tier)
+    yield from gen_pipeline2(rng, tier)
     import c18_args
     yield from c18_args.gen_get_args(rng, tier, only="select_next_plate")
     yield from c18_args.gen_parser(rng, tier, commands=["calculate_scores"])      # the other parser this property states theorems about
+
+# extreme score values for the select_next_plate command (kind selcli): as text, so that NaN / inf survive JSON
+XSCORES = ["-inf", "-inf", "inf", "-1.7976931348623157e+308", "1.7976931348623157e+308", "5e-324", "-5e-324", "0.0", "-0.0",
+           "1.0", "1.0000000000000002", "0.9999999999999999", "-2.5", "3.25", "1e+300", "-1e+300"]
+
+
+def gen_selcli(rng, tier):
+    """select_next_plate.main() on hand-written chunk files holding -inf / +inf / huge / denormal / 1-ulp-apart scores (and,
+    in a smaller stream, NaN), with and without KPerSamplePlatePolicy, files shuffled, some of them empty, one possibly given
+    twice"""
+    for it in range(100 if tier == "quick" else 1000):
+        pol = rng.choice(["none", "kper", "kper"])
+        sd, npl = gen_screen(rng, single_sample=(pol == "kper"))
+        sd.pop("partial", None)
+        if npl == 0:
+            continue
+        unobs = [p for p in range(npl) if p not in sd["observed"]]
+        batch = rng.choice([None, [], rng.sample(unobs, min(len(unobs), rng.randint(1, 2))) if unobs else []])
+        cands = [p for p in unobs if p not in (batch or [])]
+        flavour = rng.choice(["mixed", "mixed", "all-neg-inf", "neg-inf-vs-finite", "pos-inf", "nan"])
+        if flavour == "all-neg-inf":
+            pool = ["-inf"]
+        elif flavour == "neg-inf-vs-finite":
+            pool = ["-inf", "-1.7976931348623157e+308", "-1e+300", "0.0"]
+        elif flavour == "pos-inf":
+            pool = ["inf", "inf", "1.7976931348623157e+308", "-inf"]
+        elif flavour == "nan":
+            pool = ["nan", "nan", "-inf", "1.0", "inf"]
+        else:
+            pool = rng.sample(XSCORES, rng.choice([2, 3, 5, len(XSCORES)]))
+        scored = [[p, rng.choice(pool)] for p in cands]
+        nfiles = rng.choice([1, 2, 3, len(cands) + 2])
+        cut = sorted(rng.randint(0, len(scored)) for _ in range(nfiles - 1))
+        files = [scored[a:b] for a, b in zip([0] + cut, cut + [len(scored)])]
+        nonempty = [f for f in files if f]
+        if rng.random() < 0.4 and nonempty:
+            dup = [list(x) for x in rng.choice(nonempty)]   # one chunk file given twice ...
+            if rng.random() < 0.75:                         # ... scored again by a scorer that is not a function of the plate
+                dup = [[pid, rng.choice([x for x in XSCORES if x != t] if flavour != "nan" else pool)] for pid, t in dup]
+            files.append(dup)
+        rng.shuffle(files)
+        d = dict(kind="selcli", screen=sd, batch=batch, files=files, policy=pol, seed=rng.randrange(10 ** 6))
+        if pol == "kper":
+            d["k"] = rng.choice([1, 1, 2, 3])
+        yield d
+
 
 # --------------------------------------------------------------------------- running
 
@@ -508,6 +638,8 @@ def run(desc):
         return run_chunk(desc)
     if k == "pipeline":
         return run_pipeline(desc)
+    if k == "selcli":
+        return run_selcli(desc)
     raise ValueError(k)
 
 
@@ -660,8 +792,15 @@ def run_pipeline(desc):
     batch = desc["batch"]
     b = batch or []
     n, order = desc["n"], desc["order"]
-    table = {i: desc["table"][i % len(desc["table"])] for i in range(-2, 40)}
+    table = {i: desc["table"][i % len(desc["table"])] for i in range(-2, 64)}
+    if desc.get("xtable"):      # extreme stub scores as text (inf / NaN survive JSON)
+        table = {i: float(desc["xtable"][i % len(desc["xtable"])]) for i in range(-2, 64)}
     cli = desc.get("cli")
+    allvals = {}       # plate id -> every score a scorer call returned for it (a repeated chunk scores its plates again)
+    dbal_bad = []
+    thetas_in = dm_in = None
+    if desc["scorer"] == "dbal":
+        thetas_in, dm_in = _dbal_inputs(desc, screen)
     d = _tmpdir()
     recorded = {}      # plate id -> score the scorer returned
     rescored = []      # a plate scored twice with different values (random scorer with repeats: not generated)
@@ -675,9 +814,10 @@ def run_pipeline(desc):
 
         def note(returned):
             for pid, v in returned:
-                if pid in recorded and recorded[pid] != v:
+                if pid in recorded and recorded[pid] != v and not (v != v and recorded[pid] != recorded[pid]):
                     rescored.append(pid)
                 recorded[pid] = v
+                allvals.setdefault(pid, []).append(v)
 
         def go():
             nonlocal polrec
@@ -706,14 +846,28 @@ def run_pipeline(desc):
                 else:
                     if desc["scorer"] == "stub":
                         sc = Stub(table)
+                    elif desc["scorer"] == "noisy":
+                        sc = _noisy_scorer_class()(desc["table"], pos)
+                    elif desc["scorer"] == "dbal":
+                        from batchie.scoring.gaussian_dbal import GaussianDBALScorer
+                        sc = Wrap(GaussianDBALScorer(max_chunk=desc.get("max_chunk", 50), max_triples=5000))
                     else:
                         sc = Wrap(SizeScorer() if desc["scorer"] == "size" else RandomScorer())
-                    h = score_chunk(scorer=sc, thetas=None, screen=screen, distance_matrix=None,
+                    h = score_chunk(scorer=sc, thetas=thetas_in, screen=screen, distance_matrix=dm_in,
                                     rng=np.random.default_rng(desc["seed"] + pos), n_chunks=n, chunk_index=kidx,
                                     batch_plate_ids=batch)
                     h.save_h5(fn)
                     calls = sc.calls
                     rets = sc.returned if desc["scorer"] != "stub" else [[[pid, table[pid]] for pid, _ in c] for c in sc.calls]
+                    if desc["scorer"] == "dbal" and len(calls) == 1:
+                        # the real DBAL scorer on the (overlapping, batch-conditioned) subsets: the score of a candidate is the
+                        # scorer's score of exactly the rows it was handed for that candidate, whatever else is in the dict
+                        for pid_, v_ in rets[0]:
+                            alone = GaussianDBALScorer(max_chunk=50, max_triples=5000).score(
+                                plates={pid_: sc.objects[pid_]}, distance_matrix=dm_in, samples=thetas_in,
+                                rng=np.random.default_rng(7), progress_bar=False)
+                            if not _same_score(list(alone.values())[0], v_):
+                                dbal_bad.append((pid_, v_, float(list(alone.values())[0])))
                 if len(calls) != 1:
                     raise AssertionError("scorer called %d times for one chunk" % len(calls))
                 note(rets[0])
@@ -772,8 +926,9 @@ def run_pipeline(desc):
     batch_ok = (not b) or any(r[0] in b for r in w)
     cands = ref_candidates(w, b)
     pred = None
-    if rescored:
-        pred = "harness: plate rescored with a different value"
+    if dbal_bad:
+        pred = ("GaussianDBALScorer gave plate %d the score %r inside the chunk's dict, %r on the same rows alone: "
+                "the candidate is not scored on the rows it was handed" % dbal_bad[0])
     if isinstance(out, ImplError):
         if out.cls == "AssertionError":
             pred = "scorer not called exactly once per chunk: " + out.msg
@@ -804,7 +959,10 @@ def run_pipeline(desc):
                         pred = pred or "selected plate %d is observed or already in the batch" % s0
                     elif s0 not in eligible:
                         pred = pred or "selected plate %d is not allowed by the policy" % s0
-                    elif any(recorded[e] < recorded[s0] for e in eligible):
+                    elif any(v < min(allvals[s0]) for e in eligible for v in allvals[e]) and not any(v != v for v in allvals[s0]):
+                        # every stored score counts: a plate scored again by a repeated chunk (a scorer that is not a function
+                        # of the plate) competes with ALL its values; Python float ordering, so -inf is lowest and no
+                        # comparison with NaN is true (NaN is outside the quantifier; numpy argmin picks the first NaN)
                         pred = pred or "an allowed plate has a strictly lower score than the selected plate %d" % s0
         if desc["scorer"] == "size":
             for handed, _ in per:
@@ -813,7 +971,11 @@ def run_pipeline(desc):
                         pred = pred or "SizeScorer score is not the number of rows handed"
 
     vals = [recorded[e] for e in recorded]
+    has_nan = any(v != v for l in allvals.values() for v in l)
     feats = ["pipeline", "scorer:" + desc["scorer"], "policy:" + desc["policy"]] + (["cli"] if cli else []) \
+        + (["rescored-differently"] if rescored else []) + (["nan-score"] if has_nan else []) \
+        + (["+inf"] if any(v == float("inf") for v in vals) else []) \
+        + (["two-digit-ids"] if len({r[0] for r in w}) > 10 else []) + (["batch-conditioned-dbal"] if (desc["scorer"] == "dbal" and b) else []) \
         + (["batch"] if b else []) + (["batch-none"] if batch is None else []) + (["covers"] if covers else ["missing-chunk"]) \
         + (["repeat"] if len(order) != len(set(order)) else []) + (["n_chunks>cands"] if n > len(cands) else []) \
         + (["raises"] if isinstance(out, ImplError) else []) + (["policy-raises"] if policy_raised else []) \
@@ -825,9 +987,19 @@ def run_pipeline(desc):
     if policy_raised:
         # the policy object itself refused (a plate with two samples): outside the model, which takes the policy's answer as data
         return dict(wire=None, impl=out, pred=pred, features=feats)
+    if has_nan or rescored:
+        # outside the model's scorer type (a function plate -> order key): no whole-pipeline correspondence; the combination
+        # and selection are still compared exactly, as a holder script (driver op 2: concat of the loaded files, argmin over
+        # the allowed ids) whenever a plate was selected and no NaN is involved
+        if has_nan or isinstance(out, ImplError) or not out[2] or desc["policy"] == "rogue":
+            return dict(wire=None, impl=out if isinstance(out, ImplError) else None, pred=pred, features=feats)
+        eligible = ref_candidates(w, b) if not has_policy else (polrec or [])
+        hw = [[hc[0], hc[1]] for _, hc in out[0]]
+        return dict(wire=[2, 1, hw, [], [sorted(eligible)]], impl=out[2][0], pred=pred, features=feats + ["as-holder-script"], cmp=cmp_result())
     tbl = [[pid, float_key(v)] for pid, v in sorted(recorded.items())]
     if desc["scorer"] == "stub":
-        tbl = [[pid, float_key(table[pid])] for pid in sorted({r[0] for r in w})]
+        # a NaN entry can only belong to a plate no call scored here (a scored NaN took the branch above): its value is never read
+        tbl = [[pid, float_key(table[pid]) if table[pid] == table[pid] else 0] for pid in sorted({r[0] for r in w})]
     polw = None if not has_policy else [polrec if polrec is not None else []]
     if has_policy and polrec is None and not isinstance(out, ImplError):
         polw = [[]]
@@ -847,10 +1019,175 @@ def run_pipeline(desc):
     return dict(wire=[1, w, b, n, order, tbl, polw], impl=out, pred=pred, features=feats, cmp=cmp)
 
 
+def gen_pipeline2(rng, tier):
+    """gap review G6.1 / G6.2 / G5.5 / G6.4: the real GaussianDBALScorer in the pipeline (batch-conditioned, overlapping subsets);
+    scorers that are not a function of the plate with a repeated chunk; +inf / huge / 1-ulp-apart / NaN stub scores; many
+    equal-sized plates with two-digit ids and many chunks"""
+    big = tier != "quick"
+
+    def base(scorer, sd, npl, pol=None, modes=("identity", "perm", "perm", "repeat"), nmax=10, **kw):
+        pol = pol or rng.choice(["none", "none", "kper", "stubpol"])
+        batch = gen_batch(rng, sd, npl)
+        est = len([p for p in range(npl) if p not in sd["observed"] and p not in (batch or [])])
+        n = min(nmax, max(1, rng.choice([1, 2, 3, est - 1, est, est + 1, est + 3])))
+        d = dict(kind="pipeline", screen=sd, batch=batch, n=n, order=gen_order(rng, n, rng.choice(modes)), scorer=scorer,
+                 table=[rng.choice(SCORES) for _ in range(9)], policy=pol, cli=False, seed=rng.randrange(10 ** 6), **kw)
+        if pol == "kper":
+            d["k"] = rng.choice([1, 2, 3])
+        if pol == "stubpol":
+            d["keep"] = [p for p in range(64) if rng.random() < rng.choice([0.3, 0.7, 1.0])]
+        return d
+
+    def small_screen(pol):
+        while True:
+            sd, npl = gen_screen(rng, single_sample=(pol == "kper"), max_plates=6)
+            if sd["arity"] <= 2:
+                return sd, npl
+
+    for _ in range(36 if not big else 400):
+        pol = rng.choice(["none", "none", "kper", "stubpol"])
+        sd, npl = small_screen(pol)
+        d = base("dbal", sd, npl, pol=pol, T=rng.choice([3, 4, 4, 5]), max_chunk=rng.choice([1, 2, 50]),
+                 dist=rng.choice(["mixed", "mixed", "mixed", "zero"]))
+        if d["batch"] is None or not any(0 <= x < npl for x in d["batch"]):
+            if npl >= 2 and rng.random() < 0.7:          # most DBAL cases carry a batch: that is where subsets overlap
+                d["batch"] = rng.sample(range(npl), rng.randint(1, min(2, npl - 1)))
+        yield d
+    for _ in range(36 if not big else 400):
+        pol = rng.choice(["none", "none", "kper", "stubpol"])
+        sd, npl = gen_screen(rng, single_sample=(pol == "kper"))
+        yield base(rng.choice(["noisy", "noisy", "random"]), sd, npl, pol=pol, modes=("repeat", "repeat", "repeat", "perm"))
+    for _ in range(30 if not big else 300):
+        pol = rng.choice(["none", "none", "kper", "stubpol"])
+        sd, npl = gen_screen(rng, single_sample=(pol == "kper"))
+        pool = rng.sample(XSCORES, rng.choice([2, 3, 5, len(XSCORES)])) + (["nan"] if rng.random() < 0.25 else [])
+        yield base("stub", sd, npl, pol=pol, xtable=[rng.choice(pool) for _ in range(11)])
+    # many plates of ONE common size (the production shape; np.array_split goes through np.array(list of Plate)), ids of two digits
+    for _ in range(10 if not big else 80):
+        npl = rng.choice([12, 16, 24, 33, 40])
+        size = rng.choice([1, 2, 2, 3])
+        arity = rng.choice([1, 2])
+        nsamp = rng.choice([1, 2, 3])
+        rows = []
+        for p_ in range(npl):
+            sm = rng.randrange(nsamp)
+            for _k in range(size):
+                rows.append([p_, sm, [[rng.randrange(4), rng.choice([0, 1, 1, 2])] for _ in range(arity)]])
+        if rng.random() < 0.5:
+            rng.shuffle(rows)
+        observed = [p_ for p_ in range(npl) if rng.random() < 0.2]
+        sd = dict(rows=rows, arity=arity, observed=observed, pad=3)
+        d = base(rng.choice(["stub", "stub", "size", "noisy"]), sd, npl, pol=rng.choice(["none", "kper", "stubpol"]), nmax=45)
+        unobs = [p_ for p_ in range(npl) if p_ not in observed]
+        d["batch"] = rng.choice([None, [], rng.sample(unobs, min(len(unobs), 3)), rng.sample(range(10, npl), 2)])
+        est = len([p_ for p_ in unobs if p_ not in (d["batch"] or [])])
+        d["n"] = max(1, rng.choice([1, 3, 7, 11, est, est + 2]))
+        d["order"] = gen_order(rng, d["n"], rng.choice(["identity", "perm", "perm", "repeat"]))
+        yield d
+
+
+def run_selcli(desc):
+    """select_next_plate.main() on hand-written chunk files with extreme scores (see gen_selcli)"""
+    from batchie.cli import select_next_plate as snp_cli
+    from batchie.data import Screen
+    from batchie.policies.k_per_sample import KPerSamplePlatePolicy
+    from batchie.scoring.main import ChunkedScoresHolder
+
+    screen = build_screen(desc["screen"])
+    batch = desc["batch"]
+    b = batch or []
+    files = [[[int(pid), float(txt)] for pid, txt in f] for f in desc["files"]]
+    d = _tmpdir()
+    ans = {}
+    try:
+        screen.save_h5(os.path.join(d, "screen.h5"))
+        screen = Screen.load_h5(os.path.join(d, "screen.h5"))
+        w = screen_wire(screen)
+
+        def go():
+            names = []
+            for pos, f in enumerate(files):
+                h = ChunkedScoresHolder(len(f))
+                for pid, v in f:
+                    h.add_score(pid, v)
+                names.append(os.path.join(d, "scores_%d.h5" % pos))
+                h.save_h5(names[-1])
+            out = os.path.join(d, "selected.txt")
+            args = ["select_next_plate", "--data", os.path.join(d, "screen.h5"), "--output", out, "--scores"] + names
+            if b:
+                args += ["--batch-plate-id"] + [str(x) for x in b]
+            if desc["policy"] == "kper":
+                args += ["--policy", "KPerSamplePlatePolicy", "--policy-param", "k=%d" % desc["k"]]
+            orig_f = KPerSamplePlatePolicy.filter_eligible_plates
+
+            def rec_f(self, batch_plates, unobserved_plates, rng, _orig=orig_f):
+                res = _orig(self, batch_plates=batch_plates, unobserved_plates=unobserved_plates, rng=rng)
+                ans["answer"] = [int(p.plate_id) for p in res]
+                return res
+            with _argv(args), mock.patch.object(KPerSamplePlatePolicy, "filter_eligible_plates", rec_f):
+                snp_cli.main()
+            txt = open(out).read()
+            return [] if txt == "-1" else [int(txt)]
+        out = impl_call(go)
+    finally:
+        shutil.rmtree(d, ignore_errors=True)
+    has_policy = desc["policy"] == "kper"
+    polrec = ans.get("answer")
+    policy_raised = has_policy and polrec is None and isinstance(out, ImplError) and "KPerSampleBatcher" in out.msg
+    cands = ref_candidates(w, b)
+    score = {}
+    for f in files:
+        for pid, v in f:
+            score.setdefault(pid, []).append(v)
+    has_nan = any(v != v for l in score.values() for v in l)
+    pred = None
+    eligible = cands if not has_policy else (polrec or [])
+    if isinstance(out, ImplError):
+        if not policy_raised:
+            pred = "select_next_plate command failed on valid chunk files: %r" % (out,)
+    elif not out:
+        if eligible:
+            pred = "-1 written although plates %r are allowed" % (eligible,)
+        elif has_policy and polrec is None and cands:
+            pred = "-1 written without consulting the policy although plates %r are unobserved and outside the batch" % (cands,)
+    else:
+        s0 = out[0]
+        if s0 not in cands:
+            pred = "selected plate %d is observed or already in the batch" % s0
+        elif s0 not in eligible:
+            pred = "selected plate %d is not allowed by the policy" % s0
+        elif not any(v != v for v in score[s0]) and any(v < min(score[s0]) for e in eligible for v in score[e]):
+            # Python float ordering: -inf is the lowest score, +inf the highest, no comparison with NaN is true
+            pred = "an allowed plate has a strictly lower score than the selected plate %d" % s0
+    allv = [v for l in score.values() for v in l]
+    feats = ["selcli", "policy:" + desc["policy"]] + (["batch"] if b else []) + (["nan-score"] if has_nan else []) \
+        + (["-inf"] if float("-inf") in allv else []) + (["+inf"] if float("inf") in allv else []) \
+        + (["all--inf"] if allv and all(v == float("-inf") for v in allv) else []) \
+        + (["empty-chunk-file"] if any(not f for f in files) else []) + (["policy-raises"] if policy_raised else []) \
+        + (["none-selected"] if out == [] else []) + (["tie"] if len(set(allv)) < len(allv) else []) \
+        + (["trivial"] if len({r[0] for r in w}) < 2 else [])
+    if has_nan and not isinstance(out, ImplError) and out and eligible:
+        # what the unchanged tree does with NaN (outside the quantifier; documented, not judged): numpy argmin over the allowed
+        # slots returns the first NaN slot, so an allowed plate with a NaN score wins over every number
+        nan_allowed = [pid for f in files for pid, v in f if v != v and pid in eligible]
+        feats.append("nan-wins" if (nan_allowed and out[0] == nan_allowed[0]) else ("nan-not-allowed" if not nan_allowed else "nan-loses"))
+    if has_nan or isinstance(out, ImplError) or not out or policy_raised:
+        return dict(wire=None, impl=None, pred=pred, features=feats)
+    # exact comparison with the model: concat of the files in command-line order, first minimal slot among the allowed ids
+    hw = [[len(f), [[pid, float_key(v)] for pid, v in f]] for f in files]
+    return dict(wire=[2, 1, hw, [], [sorted(eligible)]], impl=out[0], pred=pred, features=feats, cmp=cmp_result())
+
+
 def shrink(desc):
     if desc.get("kind") == "cli_args":
         return
     k = desc["kind"]
+    if k == "selcli":
+        fs = desc["files"]
+        for i in range(len(fs)):
+            if len(fs) > 1 and not fs[i]:
+                yield dict(desc, files=fs[:i] + fs[i + 1:])
+        return
     if k in ("pipeline", "chunk"):
         sd = desc["screen"]
         rows = sd["rows"]
